@@ -129,7 +129,25 @@ pub struct Generated {
 }
 
 /// Generates and executes run `seed_i` for property `prop`.
+/// Runs `f` on a fresh OS thread, so that thread-local state kept by the code under test
+/// (memo tables, scratch buffers) cannot leak from one simulated run into the next: a run
+/// stays a pure function of its seed and the code, and a replay in a fresh process sees the
+/// same thread-local history.
+fn hermetic<T: Send>(f: impl FnOnce() -> Result<T, HarnessError> + Send) -> Result<T, HarnessError> {
+    std::thread::scope(|s| match s.spawn(f).join() {
+        Ok(r) => r,
+        Err(_) => {
+            let (loc, msg) = take_panic();
+            Err(HarnessError(format!("run thread died outside any guarded call at {}: {}", loc, msg)))
+        }
+    })
+}
+
 pub fn generate(seed_i: u64, prop: u32, step_scale: usize) -> Result<Generated, HarnessError> {
+    hermetic(move || generate_inner(seed_i, prop, step_scale))
+}
+
+fn generate_inner(seed_i: u64, prop: u32, step_scale: usize) -> Result<Generated, HarnessError> {
     let mut rng = Rng::new(seed_i);
     let sw = Swarm::draw(&mut rng, prop);
     let choice = starts::choose(&mut rng, &sw.start_w, sw.quiet_start);
@@ -238,6 +256,10 @@ pub fn generate(seed_i: u64, prop: u32, step_scale: usize) -> Result<Generated, 
 /// Re-executes a concrete trace from a start position. Oracles are recomputed from
 /// scratch; nothing the generator "expected" is used.
 pub fn replay(start_fen: &str, trace: &[Op], prop: u32) -> Result<RunOutput, HarnessError> {
+    hermetic(move || replay_inner(start_fen, trace, prop))
+}
+
+fn replay_inner(start_fen: &str, trace: &[Op], prop: u32) -> Result<RunOutput, HarnessError> {
     let start = Pos::from_fen(start_fen)
         .and_then(|p| admit(&p))
         .ok_or_else(|| HarnessError(format!("start position {} not admitted", start_fen)))?;
@@ -306,6 +328,10 @@ pub fn replay(start_fen: &str, trace: &[Op], prop: u32) -> Result<RunOutput, Har
 /// The chain's position (as a start FEN) after executing `ops` with all oracles off;
 /// `None` if the prefix cannot be executed to its end.
 fn position_after(start_fen: &str, ops: &[Op]) -> Result<Option<String>, HarnessError> {
+    hermetic(move || position_after_inner(start_fen, ops))
+}
+
+fn position_after_inner(start_fen: &str, ops: &[Op]) -> Result<Option<String>, HarnessError> {
     let start = match Pos::from_fen(start_fen).and_then(|p| admit(&p)) {
         Some(b) => b,
         None => return Ok(None),
